@@ -170,3 +170,16 @@ chk("C01", "model_checking",
     "through the random direction.",
     "TLA+ reference decoder + per-mode legality predicates, TLC bounded-exhaustive self-check; exhaustive encoder/decoder replay in 16 modes; trace re-evaluation",
     "DESIGN.md 3 (C01)", "tlc+harness/cmd/wire")
+
+chk("C13", "model_checking",
+    "ClientConc.tla models imapclient's concurrency design at critical-section granularity (submitters from beginCommand to Wait, the reader, closeWithError run by the "
+    "reader or by a submitter whose write failed, encMutex, the client mutex, delivery of streamed data) and TLC checks: no race on pendingCmds, at most one completion, "
+    "nobody blocked forever, every maximal behaviour ends with every Wait returned; the as-found design (register before initialise) and the streaming design (submitter "
+    "completes a command the reader is handing data to) must fail their invariants on every run (vacuity guards / design-level evidence of the findings). Every maximal "
+    "behaviour (2 submitters: all 2270 + 6128 with streamed data; 3 submitters: sampled in thorough) is re-enacted on a real client with the verif hooks as gates, built with "
+    "-race; free-running stress runs (connection loss, Close, Caps/State/Mailbox readers) record the hook log, which ClientConcTrace validates.",
+    "Data-race freedom is ultimately decided by the Go race detector on the TLC-enumerated schedules and stress runs; TLA+ supplies the schedules at hook granularity (7 hook "
+    "points). Races inside one critical section or in library code are outside the model. One design-level defect (a submitter's closeWithError vs the reader's send) is a "
+    "recorded known finding.",
+    "TLA+ concurrency spec + TLC; exhaustive schedule re-enactment through blocking hooks under the race detector; trace validation of stress hook logs",
+    "DESIGN.md 3 (C13)", "tlc+harness/cmd/clientconc")
